@@ -182,7 +182,9 @@ pub fn concretize(mode: &str, objs: &[AbsObj], p: &Profile) -> String {
                 prev_end = t;
             }
             "S" => {
-                let len = (o.ticks as f64 + 0.5) * tick_dist;
+                // `ticks` ticks per span: either half a tick distance of slack after the last tick, or (every other slider with
+                // ticks) a last tick only 20 ms before the span end - just outside the 10 ms zone in which ticks are dropped
+                let len = if o.ticks > 0 && i % 2 == 1 { o.ticks as f64 * tick_dist + 20.0 * velocity } else { (o.ticks as f64 + 0.5) * tick_dist };
                 let slides = o.rep + 1;
                 let x2 = if x + len <= 512.0 { x + len } else { x - len };
                 let _ = writeln!(s, "{x},{y},{t},2,{snd},L|{x2}:{y},{slides},{len}");
